@@ -205,6 +205,7 @@ class Field:
     doc_hidden: bool = False  # #[doc(hidden)] on the field
     zero_pad: bool = False  # bit positions / stride written with a leading zero (010 is decimal ten)
     list_trailing_comma: bool = False  # [0..=3, 8..=11,]
+    args_trailing_comma: bool = False  # #[bits(8..=15, rw,)]
     list_split: int = 0  # > 0: the first `list_split` entries in one attribute, the rest in a second #[bits([..])]
 
     @property
@@ -268,9 +269,10 @@ class Field:
             # first argument of their attribute
             order = "r" + order.replace("r", "")
         args = [parts[k] for k in order if parts.get(k)]
+        atc = "," if self.args_trailing_comma else ""
         if self.is_list() and second_list:
-            return f"#[{kw}({', '.join(args)})]" + "\n    " + f"#[{kw}({second_list})]"
-        return f"#[{kw}({', '.join(args)})]"
+            return f"#[{kw}({', '.join(args)}{atc})]" + "\n    " + f"#[{kw}({second_list})]"
+        return f"#[{kw}({', '.join(args)}{atc})]"
 
     def field_ty(self) -> str:
         t = self.ty.decl_ty()
@@ -293,7 +295,7 @@ class Field:
         return out
 
     def sig(self):
-        return (self.ty.sig(), tuple(self.ranges), self.array, self.access, self.form, self.raw_attr, self.arg_order, self.raw_ident, bool(self.doc), self.attr_split, self.doc_hidden, self.zero_pad, self.list_trailing_comma, self.list_split)
+        return (self.ty.sig(), tuple(self.ranges), self.array, self.access, self.form, self.raw_attr, self.arg_order, self.raw_ident, bool(self.doc), self.attr_split, self.doc_hidden, self.zero_pad, self.list_trailing_comma, self.list_split, self.args_trailing_comma)
 
 
 @dataclass
